@@ -842,6 +842,9 @@ class Channel(ClosingContextManager):
         """
         while s:
             sent = self.send(s)
+            if sent == 0:
+                # closed or shut down for writing: nothing more can be sent
+                raise socket.error("Socket is closed")
             s = s[sent:]
         return None
 
@@ -863,6 +866,9 @@ class Channel(ClosingContextManager):
         """
         while s:
             sent = self.send_stderr(s)
+            if sent == 0:
+                # closed or shut down for writing: nothing more can be sent
+                raise socket.error("Socket is closed")
             s = s[sent:]
         return None
 
